@@ -24,6 +24,10 @@ mod c08;
 mod c10;
 mod c18;
 mod c19;
+mod c20;
+#[allow(dead_code)]
+#[path = "../../common/allocmon.rs"]
+mod allocmon;
 mod cli;
 mod edits;
 mod ctx;
@@ -36,6 +40,9 @@ mod util;
 mod x25519_ref;
 
 use ctx::{Ctx, Tier};
+
+#[global_allocator]
+static GLOBAL: allocmon::Mon = allocmon::Mon;
 
 fn level_of(prop: &str) -> &'static str {
     match prop {
@@ -107,6 +114,7 @@ fn main() {
         "C10" => c10::run(&ctx),
         "C18" => c18::run(&ctx),
         "C19" => c19::run(&ctx),
+        "C20" => c20::run(&ctx),
         _ => {
             eprintln!("kmon: unknown property {}", prop);
             std::process::exit(2);
